@@ -955,12 +955,10 @@ static void c17_end(Run &run) {
       if (rs.rcode == 23 && ck.size() >= 8 && ck.size() <= 40 && qck.size() >= 8 && ck.substr(0, 8) == qck.substr(0, 8) && on_current_socket && awaiting[key] && first_since_tx) { badcookie_reads[key]++; awaiting[key] = false; }
       if (valid && ck.substr(0, 8) != m.cc) continue;                 // answers a query sent before the rotation: not learned from
       if (valid && !on_current_socket) { m.sc_allowed.insert(ck.substr(8)); continue; }   // may or may not have been looked at
-      if (valid && m.saw_cookieless) {
-        // a cookie-less reply was read while this client cookie was unconfirmed: the library has discarded the cookie and does
-        // not learn from late replies to it
-        m.sc_allowed.insert(ck.substr(8));
-        run.note("valid_reply_to_discarded_cookie");
-      } else if (valid) {
+      if (valid) {
+        // (also when a cookie-less reply had been read while this client cookie was unconfirmed and the library had discarded
+        //  it: a reply that echoes the cookie and carries a server cookie proves support, the cookie is reinstated)
+        if (m.saw_cookieless) run.note("valid_reply_to_discarded_cookie");
         m.sc_allowed.insert(ck.substr(8));
         if (delivered_resp.count(rs.id)) { m.sc_allowed.clear(); m.sc_allowed.insert(ck.substr(8)); m.sc_known = true; m.proven = true; m.first_missing = -1; m.cookieless_since_valid = -1; run.note("server_cookie_learned"); }
       } else if (!m.proven && rs.rcode != 23) {
@@ -1542,13 +1540,16 @@ static void c05_arrival(Run &run, Resp &rs, VFd &sock) {
   // latest transmission of the same wire query (same question, same id)
   // (by send attempt, not by wire order: a datagram refused with EAGAIN leaves the library's buffer later, when the query
   //  may already have been re-sent elsewhere)
-  const Tx *last = nullptr;
+  const Tx *last = nullptr; bool order_unknown = false;
   for (size_t i = W.txs.size(); i-- > 0;) {
     const Tx &x = W.txs[i];
-    if (x.decode_err.empty() && !x.msg.qd.empty() && x.msg.id == T.msg.id && x.qname_lc == T.qname_lc && x.msg.qd[0].type == T.msg.qd[0].type) { if (!last || x.lseq > last->lseq) last = &x; }
+    if (x.decode_err.empty() && !x.msg.qd.empty() && x.msg.id == T.msg.id && x.qname_lc == T.qname_lc && x.msg.qd[0].type == T.msg.qd[0].type) { if (!last || x.lseq > last->lseq) last = &x; if (x.order_unknown) order_unknown = true; }
   }
   rs.acceptable = 1;
   rs.defect &= ~DEF_STALE;
+  // one of the query's datagrams left the library's buffer together with a deferred one: whether it was queued before or after the
+  // transmission on the other socket cannot be observed, so no claim is made about which socket is the current one
+  if (order_unknown) run.note("socket_order_unobservable");
   if (!rs.forged && (rs.defect & DEF_BAD_COOKIE)) {
     // a genuine server with broken cookie handling: its cookie only matters while the query itself carries one
     bool has = false;
@@ -1566,10 +1567,10 @@ static void c05_arrival(Run &run, Resp &rs, VFd &sock) {
   if (rs.forged) {
     // a copy delivered to another socket is only a defect if that socket is not the one the query currently uses
     rs.defect &= ~DEF_WRONG_SOCKET;
-    if (last && last->fd != sock.fd) { rs.defect |= DEF_WRONG_SOCKET; rs.acceptable = 0; rs.unacceptable_why = "delivered to socket " + std::to_string(sock.fd) + ", the query's latest transmission used socket " + std::to_string(last->fd); }
+    if (last && last->fd != sock.fd && !order_unknown) { rs.defect |= DEF_WRONG_SOCKET; rs.acceptable = 0; rs.unacceptable_why = "delivered to socket " + std::to_string(sock.fd) + ", the query's latest transmission used socket " + std::to_string(last->fd); }
     return;
   }
-  if (last && last->fd != sock.fd) { rs.acceptable = 0; rs.defect |= DEF_STALE; rs.unacceptable_why = "arrived on socket " + std::to_string(sock.fd) + " but the query's latest transmission used socket " + std::to_string(last->fd); run.note("stale_reply_on_old_socket"); }
+  if (last && last->fd != sock.fd && !order_unknown) { rs.acceptable = 0; rs.defect |= DEF_STALE; rs.unacceptable_why = "arrived on socket " + std::to_string(sock.fd) + " but the query's latest transmission used socket " + std::to_string(last->fd); run.note("stale_reply_on_old_socket"); }
   (void)run;
 }
 static void c05_done(Run &run, Req &r) {
